@@ -3,7 +3,7 @@
    CoreExec.v) and returning a flat list: branch code followed by the three components. *)
 From Coq Require Import ZArith List Bool.
 From Coq Require Import Floats.PrimFloat.
-From MV Require Import Model.CoreNum Model.CoreModel Model.CoreExec.
+From MV Require Import Model.CoreNum Model.CoreModel Model.CoreExec Model.LawsModel.
 Import ListNotations.
 
 Definition l14_vec (v : float * float * float) : list float := let '(a, b, c) := v in [a; b; c].
@@ -27,3 +27,14 @@ Definition run14_circle (f : field) (mu0 : float) (o : float * float * float) (d
   | COnAxis, Some v => l14_code 1 :: l14_vec v
   | _, _ => [l14_code 2; f_nan; f_nan; f_nan]
   end.
+
+(* BHJM_current_polyline(field, observers, segment_start, segment_end, current), one row;
+   code = branch of polyline_H_br (0 zero length, 1 on the line, 2/3/4 the three sign cases) *)
+Definition run14_polyline (f : field) (mu0 : float) (o p1 p2 : float * float * float) (cur : float)
+  : list float :=
+  l14_code (Z.of_nat (fst (polyline_H_br NumF o p1 p2 cur))) :: l14_vec (polyline_BH NumF f mu0 o p1 p2 cur).
+
+(* current_vertices_field("H", observers, current, vertices), one row: sum over the segments *)
+Definition run14_polysum (cur : float) (vs : list (float * float * float)) (o : float * float * float)
+  : list float :=
+  l14_code (Z.of_nat (length vs)) :: l14_vec (poly_sum_gen NumF cur vs o).
